@@ -5,10 +5,11 @@ set -e
 PATCH="$(realpath "$1")"; shift
 WT=/tmp/verif_mut_$$
 git -C /repo worktree add -q --detach "$WT" HEAD
-trap 'git -C /repo worktree remove --force "$WT" 2>/dev/null; rm -rf "$WT"; rm -rf /verif/.cache/target-alt-* /verif/.cache/harness-alt-*' EXIT
+TAG=$(python3 -c "import hashlib,sys;print(hashlib.sha1(sys.argv[1].encode()).hexdigest()[:8])" "$WT")
+trap 'git -C /repo worktree remove --force "$WT" 2>/dev/null; rm -rf "$WT"; rm -rf /verif/.cache/target-alt-$TAG /verif/.cache/harness-alt-$TAG /verif/.cache/Tables-alt-$TAG.v' EXIT
 git -C "$WT" apply "$PATCH"
 cd /verif
 for id in "$@"; do
   echo "=== $id against $(basename "$PATCH")"
-  VERIF_REPO="$WT" ./check "$id" --tier quick 2>&1 | grep -E "VIOLATION|KNOWN|what:|AUDIT|evaluations" | head -8 || true
+  VERIF_REPO="$WT" ./check "$id" --tier quick 2>&1 | grep -E "VIOLATION|KNOWN|what:|AUDIT|evaluations|Traceback|Error" | head -10 || true
 done
